@@ -324,7 +324,12 @@ SELECTORS = {"smtpd": (0, 1, 0x34, 0xc2), "qmtpd": (0, 1, 0x24, 0x88), "qmqpd": 
              "control": (0, 1, 2, 3)}
 
 
-def job_extremes(bdir, binary, name, home, longhaul=False):
+TRUNC_GENS = {"smtpd": c20gen.smtp_session, "qmtpd": c20gen.qmtp_session, "qmqpd": c20gen.qmqp_session, "pop3d": c20gen.pop3_session,
+              "popup": c20gen.popup_session, "inject822": c20gen.message, "remote-smtp": c20gen.smtp_replies,
+              "control": c20gen.control_file, "send-reports": lambda r: c20gen.reports(r, 10)}
+
+
+def job_extremes(bdir, binary, name, home, ntrunc=0, group=None, longhaul=False):
     """deterministic extreme inputs, each executed once by the target binary"""
     res = core.Result()
     work = build.mktemp("nqv-c20-ex-")
@@ -339,6 +344,9 @@ def job_extremes(bdir, binary, name, home, longhaul=False):
         else:
             cases = [b"3000000000:1:x,2147483649:", b"3000000000:1:x,3:a@b,2147483650:", b"2147483700:2147483649:"]
         sels = (0,)
+    elif group is not None:
+        cases = [c for n, c in c20gen.dns_boundary_cases() if n.startswith(group)]
+        sels = (None,)
     else:
         cases = c20gen.extremes(name)
         sels = SELECTORS.get(name, (None,))
@@ -348,13 +356,23 @@ def job_extremes(bdir, binary, name, home, longhaul=False):
             with open(p, "wb") as f:
                 f.write(c + (bytes([s]) if s is not None else b""))
             files.append(p)
+    if not longhaul and group is None and name in TRUNC_GENS:
+        # every truncation point of generated valid sessions (selector 0: whole reads)
+        for j in range(ntrunc):
+            sess = TRUNC_GENS[name](core.case_rng(PROP, j, "trunc-" + name))[:700]
+            for i in range(len(sess) + 1):
+                p = os.path.join(work, "t%03d_%04d" % (j, i))
+                with open(p, "wb") as f:
+                    f.write(sess[:i] + b"\0")
+                files.append(p)
+            cases.append(sess)
     if not files:
         shutil.rmtree(work, ignore_errors=True)
         return res
     argv = [binary, "-timeout=%d" % (900 if longhaul else 120), "-rss_limit_mb=6000", "-detect_leaks=0",
             "-artifact_prefix=%s/" % art] + files
     env = fz_env(bdir, home, {"NQV_FZ_LONGHAUL": "1"} if longhaul else None)
-    note = "long-haul inputs" if longhaul else "%d extreme inputs" % len(files)
+    note = "long-haul inputs" if longhaul else "%d extreme inputs%s" % (len(files), " (%s group)" % group if group else "")
     rc, out, err = core.run_with_watchdog(argv, 3000 if longhaul else 900, env=env, cwd=work)
     if rc is None:
         res.inconclusive.append("watchdog: %s of %s" % (note, name))
@@ -363,7 +381,7 @@ def job_extremes(bdir, binary, name, home, longhaul=False):
         for c in cases:
             res.nontrivial(name, hashlib.blake2b(c, digest_size=8).digest())
         k = "longhaul_inputs" if longhaul else "extreme_inputs"
-        res.counters.setdefault(k, {})[name] = len(files)
+        res.counters.setdefault(k, {})[name + ("/" + group if group else "")] = len(files)
         if cases and not longhaul:
             big = max(cases, key=len)
             res.sample({"target": name, "extreme_input": core.hx(big[:60]) + "... (%d bytes)" % len(big)}, cap=1)
@@ -743,6 +761,8 @@ def run_job(kind, *a):
         return job_extremes(*a)
     if kind == "longhaul":
         return job_extremes(*a, longhaul=True)
+    if kind == "dnsgroup":
+        return job_extremes(*a[:-1], group=a[-1])
     if kind == "lenprobe":
         return job_lenprobe(*a)
     if kind == "smoke":
@@ -789,9 +809,14 @@ def main(tier):
         nshards = max(1, (runs + shard_runs - 1) // shard_runs)
         for k in range(nshards):
             jobs.append(("fuzz", bf.dir, bins[name], name, fhome, cdir, runs // nshards, core.seed() * 1000 + k, k))
+    ntrunc = 5 if quick else 50
     for name in slow_first:
         if name in bins:
-            jobs.append(("extreme", bf.dir, bins[name], name, fhome))
+            jobs.append(("extreme", bf.dir, bins[name], name, fhome, ntrunc))
+    if "dns" in bins:
+        # the boundary-sized answers once more, one process per look-up kind, so that each kind reports its own site
+        for g in ("a-", "mx-", "ptr-", "tc-"):
+            jobs.append(("dnsgroup", bf.dir, bins["dns"], "dns", fhome, 0, g))
     if not quick:
         for name in ("qmtpd", "qmqpd"):
             if name in bins:
